@@ -676,6 +676,14 @@ func probe() {
 	if err := f.setIn(in); err != nil {
 		fmt.Println(err)
 	}
+	if os.Getenv("VERIF_C07_BATCH") != "" {
+		bt := batchText(os.Args[3:])
+		ro, rok := refBatch(bt, in, len(os.Args)-3)
+		fmt.Println("ref", rok, ro)
+		fo, fok := f.fqBatch(bt, len(os.Args)-3)
+		fmt.Println("fq ", fok, fo)
+		return
+	}
 	for _, p := range os.Args[3:] {
 		ok, a, b := compareDirect(f, p, in)
 		fmt.Printf("%s\n  equal=%v\n  ref %s\n  fq  %s\n", p, ok, a, b)
